@@ -479,6 +479,22 @@ static Result execRt(const std::vector<std::string>& w, const std::string& tail)
   else if (!j.empty()) res.oracle = "FAIL " + j;
   else stat(got.ok ? "rt_ok" : "rt_dup");
   stat("rt_items", (long)(pre.size() + mainItems.size()));
+  // which spellings of the dialect were exercised
+  for (const auto* v : {&pre, &mainItems})
+    for (const auto& it : *v) {
+      if (it.kind == 'A') {
+        stat(it.q == 'n' ? "rt_value_bare" : it.q == 's' ? "rt_value_squote" : "rt_value_dquote");
+        if (has(it.value, '\n')) stat("rt_value_multiline");
+        if (it.hasCmt) stat("rt_trailing_comment");
+        if (has(it.key, '.')) stat("rt_dotted_key");
+        if (has(it.ws4, '\r') ) stat("rt_cr_at_line_end");
+        if (it.value.empty()) stat("rt_value_empty");
+      } else if (it.kind == 'H') {
+        stat(it.key.empty() ? "rt_header_reset" : has(it.key, '.') ? "rt_header_dotted" : "rt_header_simple");
+        if (!it.text.empty()) stat("rt_header_with_junk");
+      }
+    }
+  if (!pre.empty()) stat(ow ? "rt_two_sources_overwrite" : "rt_two_sources_keep");
   return res;
 }
 
@@ -941,6 +957,7 @@ static Result execGet(const std::vector<std::string>& w) {
     return res;
   }
   stat(res.impl.rfind("ERR", 0) == 0 ? "get_rejected" : "get_converted");
+  if (res.impl.rfind("ERR", 0) != 0) stat("getok_" + ty);   // every target type must see accepted texts, too
   if (res.oracle != "ok") return res;
   if (want == "?") { res.oracle = "ok trivial"; stat("get_no_claim"); }
   else if (want != res.impl) res.oracle = "FAIL get<" + ty + ">: got " + res.impl.substr(0, 200) + " want " + want.substr(0, 200);
@@ -1437,7 +1454,17 @@ static std::string genIntText(Rng& r, int bits, bool sg) {
   static const std::vector<std::string> special = {"0", "1", "-1", "+1", "-0", "+0", "00", "007", "-007", "10", "99", "100"};
   auto pow2 = [](int b) { unsigned __int128 one = 1; return one << b; };
   auto dec = [](unsigned __int128 v) { std::string s; if (!v) s = "0"; for (; v; v /= 10) s.insert(s.begin(), char('0' + (int)(v % 10))); return s; };
-  long k = r.range(0, 9);
+  long k = r.range(0, 13);
+  if (k >= 10) {   // a value the type can hold: its limits exactly, or uniform over a random number of bits
+    int mb = sg ? bits - 1 : bits;
+    unsigned __int128 hi = pow2(mb) - 1;
+    bool neg = sg && r.coin();
+    unsigned __int128 v;
+    if (r.coin(1, 4)) v = neg ? hi + 1 : hi;              // lo or hi
+    else if (r.coin(1, 6)) v = neg ? hi : hi - 1;          // next to them
+    else v = (unsigned __int128)(r.next() >> r.below(64)) & (pow2((int)r.range(1, mb)) - 1);
+    return std::string(neg ? "-" : (r.coin(1, 8) ? "+" : "")) + (r.coin(1, 10) ? "00" : "") + dec(v);
+  }
   if (k <= 1) return r.pick(special);
   if (k <= 3) {  // around the limits of this and the neighbouring types
     static const std::vector<int> bs = {15, 16, 31, 32, 63, 64};
@@ -1513,18 +1540,23 @@ static std::string genGet(Rng& r, const Args&) {
                                                 "ad2", "ad3", "fi1", "fi3", "bs0", "bs1", "bs3", "bs8", "vi", "vu", "vb", "vs", "vd",
                                                 "af0", "af1", "af2", "af3", "ac0", "ac1", "ac2", "ac3", "fd1", "fd2", "vf", "vc"};
   std::string ty, text;
+  // element kind / width / signedness of a target type name (explicit table: a positional test on the letters
+  // once classified "bs3" and "ushort" as strings, so bitsets and unsigned shorts never saw their own literals)
   auto kindOf = [](const std::string& t, char& kind, int& bits, bool& sg) {
+    auto starts = [&](const char* p) { return t.rfind(p, 0) == 0; };
     kind = 'i'; bits = 32; sg = true;
-    if (t == "uint" || t[1] == 'u') sg = false;
-    if (t == "long") bits = 64;
-    if (t == "ulong") { bits = 64; sg = false; }
-    if (t == "short") bits = 16;
-    if (t == "ushort") { bits = 16; sg = false; }
-    if (t == "bool" || t[0] == 'b' || t == "vb") kind = 'b';
-    if (t == "str" || t[1] == 's') kind = 's';
-    if (t == "dbl" || t[1] == 'd') kind = 'd';
-    if (t == "flt" || t == "vf" || (t[0] == 'a' && t[1] == 'f')) kind = 'f';
-    if (t == "chr" || t == "vc" || (t[0] == 'a' && t[1] == 'c')) kind = 'c';
+    if (t == "bool" || t == "vb" || starts("bs")) kind = 'b';
+    else if (t == "str" || t == "vs" || starts("as")) kind = 's';
+    else if (t == "dbl" || t == "vd" || starts("ad") || starts("fd")) kind = 'd';
+    else if (t == "flt" || t == "vf" || starts("af")) kind = 'f';
+    else if (t == "chr" || t == "vc" || starts("ac")) kind = 'c';
+    else {
+      if (t == "uint" || t == "vu" || starts("au")) sg = false;
+      if (t == "long") bits = 64;
+      if (t == "ulong") { bits = 64; sg = false; }
+      if (t == "short") bits = 16;
+      if (t == "ushort") { bits = 16; sg = false; }
+    }
   };
   char kind; int bits; bool sg;
   if (r.coin(2, 5)) {
@@ -1535,13 +1567,22 @@ static std::string genGet(Rng& r, const Args&) {
     ty = r.pick(seqs);
     kindOf(ty, kind, bits, sg);
     long n = ty[0] == 'v' ? r.range(0, 5) : std::stol(ty.substr(2));
-    long delta = r.coin(2, 3) ? 0 : r.range(-2, 2);
+    // one case in three is a clean one (right number of well-formed items, nothing trailing), so that every
+    // target type regularly sees a text it accepts and element order / count are observed
+    bool clean = r.coin(1, 3);
+    long delta = clean || r.coin(2, 3) ? 0 : r.range(-2, 2);
     long cnt = std::max(0L, n + delta);
     static const std::vector<std::string> seps = {" ", " ", " ", "  ", "\t", "\n", "\r", "\v", "\f", " \t "};
     text = r.coin(1, 4) ? padC(r) : "";
     for (long i = 0; i < cnt; ++i) {
       std::string t;
       if (kind == 's') { static const std::vector<std::string> ws = {"a", "b", "hello", "x=y", "'q'", "1", "#"}; t = r.pick(ws); }
+      else if (clean) {
+        if (kind == 'i') { int mb = sg ? bits - 1 : bits; long long v = (long long)((r.next() >> 1) & ((1ull << r.range(1, std::min(mb, 62))) - 1)); t = std::to_string(sg && r.coin(1, 3) ? -v : v); }
+        else if (kind == 'd' || kind == 'f') { static const std::vector<std::string> d = {"0", "1", "-2.5", "3.25", ".5", "1e3", "-1E-2", "0.1", "16777217", "1e30", "7.", "+4"}; t = r.pick(d); }
+        else if (kind == 'c') { static const std::vector<std::string> c = {"a", "b", "Z", "7", "#", "-"}; t = r.pick(c); }
+        else { static const std::vector<std::string> b = {"yes", "no", "true", "false", "1", "0", "TRUE", "No", "2", "-1", "fAlSe", "YES"}; t = r.pick(b); }
+      }
       else if (r.coin(1, 12)) t = genScalarText(r, kind, bits, sg);
       else if (kind == 'i') t = genIntText(r, bits, sg);
       else if (kind == 'd' || kind == 'f') t = genDblText(r);
@@ -1550,6 +1591,7 @@ static std::string genGet(Rng& r, const Args&) {
       text += (i ? r.pick(seps) : "") + t;
     }
     if (r.coin(1, 4)) text += padC(r);
+    if (clean) return "get " + ty + " " + hx(text);
     if (r.coin(1, 12) && kind != 's' && kind != 'b' && kind != 'c') { static const std::vector<std::string> glue = {"1-2", "1+2", "3-4-5", "1.5.5", "1..5", "1e5.5", "+1+1", "7-", "1e", "-+1"}; text += (text.empty() ? "" : " ") + r.pick(glue); }
     if (r.coin(1, 8)) { static const std::vector<std::string> tails = {" -", " +", " .", " 1e", " x", "-", "+", " 99999999999999999999", " e", ","}; text += r.pick(tails); }
   }
